@@ -8,6 +8,7 @@ require (
 	github.com/baidu/go-lib v0.0.0-20200819072111-21df249f5e6a
 	github.com/bfenetworks/bfe v0.0.0
 	github.com/dgrijalva/jwt-go v3.2.0+incompatible
+	github.com/gomodule/redigo v2.0.0+incompatible
 	github.com/miekg/dns v1.1.29
 	github.com/spaolacci/murmur3 v1.1.0
 	golang.org/x/crypto v0.0.0-20200622213623-75b288015ac9
